@@ -761,7 +761,9 @@ def run(ctx):
         run_mode(ctx, mode, True, rel_cases, quick)
         reloc_and_clock(ctx, mode, True, quick)
     # the start-up without aux values (features start + symbols only): its own `resolve`, judged against what was passed
-    for mode in (["static+noaux"] if quick else [m + "+noaux" for m in MODES]):
+    # (static PIE is excluded: `resolve` without aux "does not relocate symbols. Do not use if symbol relocation is wanted or
+    #  required, such as when compiling a static-pie-linked" binary - start.rs; a static PIE without relocation crashes by design)
+    for mode in (["static+noaux"] if quick else [m + "+noaux" for m in MODES if m != "spie"]):
         run_mode(ctx, mode, False, rel_cases if quick else cases, quick)
         if not quick:
             run_mode(ctx, mode, True, rel_cases, quick)
